@@ -94,6 +94,10 @@ pub struct OrdSpec {
     pub aw_m: u32,
     pub lw_i: u32,
     pub lw_m: u32,
+    /// e-mode entries of this (liability) bank: (collateral tag 1..3, fraction of the largest admissible initial weight,
+    /// of the largest admissible maintenance weight, both in millionths) - they boost venue banks that carry the tag
+    #[serde(default)]
+    pub emode: Vec<(u16, u32, u32)>,
 }
 
 #[derive(Clone, Debug, Serialize, Deserialize, PartialEq)]
@@ -116,6 +120,12 @@ pub struct VSpec {
     /// campaign starts: a reserve that socialised a loss may be worth LESS than one underlying token per collateral unit
     #[serde(default)]
     pub haircut_ppm: u32,
+    /// e-mode tag of the venue bank (0 = none; 1..3 may be boosted by an entry of the bank the account borrows from)
+    #[serde(default)]
+    pub emode_tag: u16,
+    /// collateral-value cap (total_asset_value_init_limit, dollars; 0 = none): discounts the INITIAL weight only
+    #[serde(default)]
+    pub init_limit: u64,
 }
 
 #[derive(Clone, Debug, Serialize, Deserialize, PartialEq)]
@@ -236,9 +246,9 @@ fn venue_decimals_strategy() -> impl Strategy<Value = u8> {
 }
 
 fn ord_strategy() -> impl Strategy<Value = OrdSpec> {
-    (decimals_strategy(), 0u8..2, feed_strategy(true), 0u32..=1_000_000, 0u32..=400_000, 0u32..500_000, 0u32..500_000).prop_map(|(decimals, token, feed, aw_i, gap, lx, lgap)| {
+    (decimals_strategy(), 0u8..2, feed_strategy(true), 0u32..=1_000_000, 0u32..=400_000, 0u32..500_000, 0u32..500_000, prop_oneof![3 => Just(vec![]), 2 => prop::collection::vec((1u16..4, 0u32..=1_000_000, 0u32..=1_000_000), 1..3)]).prop_map(|(decimals, token, feed, aw_i, gap, lx, lgap, emode)| {
         let lw_m = 1_000_000 + lx;
-        OrdSpec { decimals, token, feed, aw_i, aw_m: aw_i + gap, lw_i: lw_m + lgap, lw_m }
+        OrdSpec { decimals, token, feed, aw_i, aw_m: aw_i + gap, lw_i: lw_m + lgap, lw_m, emode }
     })
 }
 
@@ -250,14 +260,15 @@ fn venue_strategy() -> impl Strategy<Value = VSpec> {
         // deposit limit: none / whole tokens / tight native amounts
         prop_oneof![5 => Just((0u8, 0u64)), 3 => (Just(1u8), 1u64..2_000_000), 2 => (Just(2u8), 1u64..100_000)],
         prop_oneof![6 => Just(0u32), 1 => 1u32..1000, 2 => 1000u32..=1_000_000],
+        (prop_oneof![2 => Just(0u16), 3 => 1u16..4], prop_oneof![4 => Just(0u64), 1 => 1u64..50, 2 => 50u64..50_000]),
     )
-        .prop_map(|((kind, decimals, token, feed), (rate_ppm, scale_exp, ragged), (aw_i, gap), (lk, lx), haircut_ppm)| {
+        .prop_map(|((kind, decimals, token, feed), (rate_ppm, scale_exp, ragged), (aw_i, gap), (lk, lx), haircut_ppm, (emode_tag, init_limit))| {
             let limit = match lk {
                 0 => u64::MAX,
                 1 => lx.saturating_mul(10u64.pow(decimals as u32)),
                 _ => lx,
             };
-            VSpec { kind, decimals, token, feed, rate_ppm, scale_exp, ragged, aw_i, aw_m: aw_i + gap, limit, haircut_ppm }
+            VSpec { kind, decimals, token, feed, rate_ppm, scale_exp, ragged, aw_i, aw_m: aw_i + gap, limit, haircut_ppm, emode_tag, init_limit }
         })
 }
 
@@ -496,6 +507,21 @@ fn ord_bank_spec(o: &OrdSpec) -> BankSpec {
     b.lw_i = o.lw_i;
     b.lw_m = o.lw_m;
     b.oracle = o.feed.oracle(o.feed.mant, o.feed.conf_bps);
+    // e-mode entries valid against this bank's liability weights and the default group caps (as in c04.rs)
+    let cap_i = (o.lw_i as u64 * 14 / 15).min(o.lw_m as u64 * 19 / 20) as u32;
+    let cap_m = (o.lw_m as u64 * 19 / 20) as u32;
+    let mut seen: Vec<u16> = vec![];
+    for (tag, fi, fm) in &o.emode {
+        if seen.contains(tag) {
+            continue;
+        }
+        seen.push(*tag);
+        let init = ((cap_i as u64 * *fi as u64) / 1_000_000) as u32;
+        let maint = init.max(((cap_m as u64 * *fm as u64) / 1_000_000) as u32).min(cap_m.saturating_sub(1));
+        let init = init.min(maint);
+        b.emode_entries.push(EmodeEntrySpec { tag: *tag, flags: 0, init, maint });
+    }
+    b.emode_entries.sort_by_key(|e| e.tag);
     b
 }
 fn venue_bank_spec(v: &VSpec) -> BankSpec {
@@ -506,6 +532,8 @@ fn venue_bank_spec(v: &VSpec) -> BankSpec {
     b.aw_m = v.aw_m;
     b.deposit_limit = v.limit;
     b.oracle = v.feed.oracle(v.feed.mant, v.feed.conf_bps);
+    b.emode_tag = v.emode_tag;
+    b.init_limit = v.init_limit;
     b
 }
 
@@ -2614,7 +2642,7 @@ pub fn run_case(case: &VCase, fam: &str, st: &mut Stats) -> Result<(), (String, 
 }
 
 pub fn rule(pid: &str) -> String {
-    let common = "venue campaign (stateful proptest): generated worlds of 1-2 ordinary banks (bank 0 borrowable, funded by a lender) and 1-3 (one tenth / for C16 three eighths: 9-10) venue banks of generated kinds Kamino / Solend / Drift (decimals mostly 6 / 8 / 9, one mint in eight with unusual decimals 0-5, 7, 10-12 - for a Drift bank more than 9 decimals means one booked unit is worth 10^(d-9) native units -, SPL / plain Token-2022, Pyth with EMA != spot or Switchboard, confidence 0-3 %, initial venue rate 1.0-1.6 with ragged fixed-point digits, in a third of the worlds lowered again by a write-off of 0-100 % of the venue's borrowed liquidity (a reserve that socialised a loss: possibly BELOW par), reserve sizes 1e7-1e15, generated weights and deposit limits incl. tight ones), 3 users + liquidator + lender with distinct roles; sequences of 8-40 generated ops (venue deposit / withdraw with absolute, relative and boundary amounts, with or without the venue refresh instructions, signed by authority / other user / stranger / unsigned authority key / group admin; borrow / repay on bank 0 sized by the reference borrowing power; ordinary deposits; venue interest accrual; venue losses (the exchange rate falls, possibly below par); waiting (clock and slot advance, price feeds refreshed, venue accounts NOT); venue refresh; price and confidence moves; bank paused / reduce-only / operational; killed (doctored, counted); protocol pause with / without propagation; limits; classic liquidation; receivership brackets [refresh.., start, venue withdraw, repay, end]; freeze; distress (price solved for a maintenance health slightly below / above zero); disabling by transfer / bankruptcy; substitution probes on copies of the world (15 % of the worlds, 60 % for C08, have a second group - creating one is permissionless - with one venue bank of every kind in use); the two permissionless harvest instructions kamino_harvest_reward / drift_harvest_reward - Solend has none -: a fake Kamino farm whose user state of the bank's vault authority gets a generated pending reward of a new mint (SPL / Token-2022, 0-9 decimals) or of the bank's own mint, resp. a generated Drift `admin deposit` of a further spot market written into slot 2-7 of the bank's Drift user - both the outside world acting, doctored and counted -, sent by user 0 / user 1 / a stranger (the instructions have no signer account), paid to the fee wallet's canonical ATA or - hostile - the sender's ATA / the group admin's ATA / a non-canonical account of the fee wallet, optionally with ONE hostile substitution (Kamino: user_reward_ata = the bank's pre-funded liquidity vault / another bank's reward ATA, the bank's mint passed as reward mint, vault authority / bank of another bank, a copy of the fee state naming the sender as fee wallet; Drift: harvest of the bank's own market / of another market of the bank's mint / of a market whose position sits in slot 0-1, Drift user or user stats of another bank, a non-ATA intermediary, vault authority of another bank, fee-state copy), optionally with dust waiting in the intermediary account; an attempt that does not commit is rolled back together with its set-up) executed through marginfi::entry and the fake venue programs; three quarters of the cases with the venues converting as the mocks crates do (Kamino / Solend I80F48 rates; the Drift fake then calls drift_mocks' own get_scaled_balance_* helpers, i.e. it behaves exactly as marginfi's handlers predict), one quarter with exact floor arithmetic / Drift's own formulas. ";
+    let common = "venue campaign (stateful proptest): generated worlds of 1-2 ordinary banks (bank 0 borrowable, funded by a lender) and 1-3 (one tenth / for C16 three eighths: 9-10) venue banks of generated kinds Kamino / Solend / Drift (decimals mostly 6 / 8 / 9, one mint in eight with unusual decimals 0-5, 7, 10-12 - for a Drift bank more than 9 decimals means one booked unit is worth 10^(d-9) native units -, SPL / plain Token-2022, Pyth with EMA != spot or Switchboard, confidence 0-3 %, initial venue rate 1.0-1.6 with ragged fixed-point digits, in a third of the worlds lowered again by a write-off of 0-100 % of the venue's borrowed liquidity (a reserve that socialised a loss: possibly BELOW par), reserve sizes 1e7-1e15, generated weights and deposit limits incl. tight ones; three fifths of the venue banks carry an e-mode tag that two fifths of the borrowable banks boost with generated entries, three sevenths a collateral-value cap of 1-50 000 $), 3 users + liquidator + lender with distinct roles; sequences of 8-40 generated ops (venue deposit / withdraw with absolute, relative and boundary amounts, with or without the venue refresh instructions, signed by authority / other user / stranger / unsigned authority key / group admin; borrow / repay on bank 0 sized by the reference borrowing power; ordinary deposits; venue interest accrual; venue losses (the exchange rate falls, possibly below par); waiting (clock and slot advance, price feeds refreshed, venue accounts NOT); venue refresh; price and confidence moves; bank paused / reduce-only / operational; killed (doctored, counted); protocol pause with / without propagation; limits; classic liquidation; receivership brackets [refresh.., start, venue withdraw, repay, end]; freeze; distress (price solved for a maintenance health slightly below / above zero); disabling by transfer / bankruptcy; substitution probes on copies of the world (15 % of the worlds, 60 % for C08, have a second group - creating one is permissionless - with one venue bank of every kind in use); the two permissionless harvest instructions kamino_harvest_reward / drift_harvest_reward - Solend has none -: a fake Kamino farm whose user state of the bank's vault authority gets a generated pending reward of a new mint (SPL / Token-2022, 0-9 decimals) or of the bank's own mint, resp. a generated Drift `admin deposit` of a further spot market written into slot 2-7 of the bank's Drift user - both the outside world acting, doctored and counted -, sent by user 0 / user 1 / a stranger (the instructions have no signer account), paid to the fee wallet's canonical ATA or - hostile - the sender's ATA / the group admin's ATA / a non-canonical account of the fee wallet, optionally with ONE hostile substitution (Kamino: user_reward_ata = the bank's pre-funded liquidity vault / another bank's reward ATA, the bank's mint passed as reward mint, vault authority / bank of another bank, a copy of the fee state naming the sender as fee wallet; Drift: harvest of the bank's own market / of another market of the bank's mint / of a market whose position sits in slot 0-1, Drift user or user stats of another bank, a non-ATA intermediary, vault authority of another bank, fee-state copy), optionally with dust waiting in the intermediary account; an attempt that does not commit is rolled back together with its set-up) executed through marginfi::entry and the fake venue programs; three quarters of the cases with the venues converting as the mocks crates do (Kamino / Solend I80F48 rates; the Drift fake then calls drift_mocks' own get_scaled_balance_* helpers, i.e. it behaves exactly as marginfi's handlers predict), one quarter with exact floor arithmetic / Drift's own formulas. ";
     let own = match pid {
         "C02" => "C02 family: after every committed transaction, for every venue bank d(total_asset_shares) == sum over all accounts d(asset_shares) bit-exactly (a closure may leave the total above by < 0.0001 units), the total never below the sum, no liability shares in venue banks. Non-trivial = a case in which two accounts held the same venue bank and a venue withdraw succeeded.",
         "C03" => "C03 family: successful venue deposit: source token account moved by exactly `amount`, shares credited x EXACT venue rate <= amount (allowance: the derived bound of the mocks' I80F48 rate, ~1e-12 relative, + 4 ulp); successful venue withdraw (also `all`): tokens received <= shares removed x exact rate (same allowance; integer tokens, so `all` pays <= floor(value)); after every committed transaction - including every committed harvest - (venue position - booked shares) never decreases; a committed harvest leaves the balance of the bank's liquidity vault, of the venue's vault of the bank's own market / reserve, of every other bank / venue vault and of every user token account where it was (harvest:took-from-depositors) and does not move the scaled balance of a Drift bank's own spot position (harvest:touched-own-market). Non-trivial = a successful venue deposit or withdraw of a positive amount at a venue rate != 1.",
